@@ -664,9 +664,11 @@ def gen_corr_case(rng, idx):
     # the remaining time can be shorter than the minimum step: the bounds in force then cross
     if which >= 2 and rng.random() < 0.25:
         c['dtmax'] = c['dtmin'] * float(rng.choice([0.5, 0.125, 0.9]))
-    # the constructor's fractions of the span (attributes dtmin / dtmax) are other numbers than the bounds in force
-    c['fmin'] = float(rng.choice([1e-8, 1e-3, 0.25]))
-    c['fmax'] = float(rng.choice([1.0, 0.5, 0.01]))
+    # the run is made over a span T (power of two, larger than every step): the constructor's fractions of the
+    # span (attributes dtmin / dtmax) are then other numbers than the bounds in force, dtmin = fmin * T exactly
+    c['T'] = float(rng.choice([16.0, 32.0, 64.0]))
+    c['fmin'] = c['dtmin'] / c['T']
+    c['fmax'] = c['dtmax'] / c['T']
     return c
 
 
@@ -692,7 +694,13 @@ def run_corr_impl(c):
             F = lambda t, x, getDt=False: (f(t, x), c['h0']) if getDt else f(t, x)
             xn, dt = it(F, c['t'], y, lambda a, k, h: a + k * h)
         else:
-            s = So.DESolver(So.SolverType.EXPLICITEULER if c['which'] == 2 else So.SolverType.RK4)
+            # PUBLIC API only: the first step of DESolver.solve over a span T (a power of two, so that the
+            # bounds in force are exactly minDtFrac * T = dtmin and maxDtFrac * T = dtmax), observed through
+            # the user hooks: correctdXdt receives the step of every update (the last one is the full step),
+            # postProcess receives the new state and stops the run
+            T = c['T']
+            s = So.DESolver(So.SolverType.EXPLICITEULER if c['which'] == 2 else So.SolverType.RK4,
+                            minDtFrac=c['fmin'], maxDtFrac=c['fmax'])
             X0 = [y[i:i + 1].copy() for i in range(n)]
             gm = GenericModel.__new__(GenericModel)
 
@@ -700,13 +708,23 @@ def run_corr_impl(c):
                 d = f(t, np.hstack(X))
                 return [d[i:i + 1].copy() for i in range(n)]
 
-            corr = s.correctdXdtNotImplemented       # models that do not correct derivatives
+            seen_dt, seen = [], []
+
+            def corr(dt, X, dXdt):                   # a model that does not correct derivatives
+                seen_dt.append(float(dt))
+
+            def post(tnew, X):
+                seen.append((float(tnew), np.hstack(X).astype(float).copy()))
+                return X, True
+
             getdt = lambda dXdt: c['h0'] + c['h1'] * float(np.hstack(dXdt)[0]) ** 2
             s.setdXdtFunctions(fl, corr, getdt, lambda X: GenericModel.flattenX(gm, X), lambda Xf, Xr: GenericModel.unflattenX(gm, Xf, Xr))
-            s.dtmin, s.dtmax = c['fmin'], c['fmax']
-            s._dtmin, s._dtmax = c['dtmin'], c['dtmax']
-            s._X0 = X0
-            xn, dt = s.iterator(s._getdXdt, c['t'], s._flattenX(X0), s._updateX)
+            s.setFunctions(postProcess=post)
+            s.solve(c['t'], X0, c['t'] + T)
+            if len(seen) != 1:
+                raise RuntimeError('the run did not stop after the first step (%d post-processing calls)' % len(seen))
+            xn = seen[0][1]
+            dt = seen_dt[-1] if seen_dt else seen[0][0] - c['t']
         out.update(new=[float(v) for v in np.asarray(xn, dtype=float)], dt=float(dt))
     except Exception as e:
         out['err'] = type(e).__name__ + ': ' + str(e)
@@ -724,7 +742,7 @@ def corr_term(c, im, both):
         qlit(c['t']), qlist(c['y']), qlist(im['new']), qlit(im['dt']))
 
 
-WHICH = ['ExplicitEulerIterator', 'RK4Iterator', 'ExplicitEulerIterator through DESolver._getdXdt/_updateX', 'RK4Iterator through DESolver._getdXdt/_updateX']
+WHICH = ['ExplicitEulerIterator', 'RK4Iterator', 'ExplicitEulerIterator through DESolver.solve', 'RK4Iterator through DESolver.solve']
 
 
 def describe_corr(c, im, r, what):
@@ -734,8 +752,8 @@ def describe_corr(c, im, r, what):
         return None
     head = '%s, t=%r, state %r' % (WHICH[c['which']], c['t'], c['y'])
     if c['which'] >= 2:
-        head += ', model proposes dt=h0+h1*d0^2 with h0=%r h1=%r, bounds in force _dtmin=%r _dtmax=%r (attributes dtmin=%r dtmax=%r)' % (
-            c['h0'], c['h1'], c['dtmin'], c['dtmax'], c.get('fmin'), c.get('fmax'))
+        head += ', first step of a run over a span %r, model proposes dt=h0+h1*d0^2 with h0=%r h1=%r, step bounds in force minDtFrac*span=%r maxDtFrac*span=%r (minDtFrac=%r maxDtFrac=%r)' % (
+            c.get('T'), c['h0'], c['h1'], c['dtmin'], c['dtmax'], c.get('fmin'), c.get('fmax'))
     else:
         head += ', dt=%r' % c['h0']
     if not dt_ok:
@@ -929,7 +947,7 @@ def report_hits(ctx, hits):
     for (c, clause, cls, msg) in hits:
         if c['kind'] == 'corr':
             site = ('kawin/solver/Iterators.py:' + WHICH[c['which']]) if c['which'] < 2 else \
-                   'kawin/solver/Solver.py:DESolver._getdXdt/_updateX (%s)' % ('Euler' if c['which'] == 2 else 'RK4')
+                   'kawin/solver/Solver.py:DESolver.solve first step (%s)' % ('Euler' if c['which'] == 2 else 'RK4')
             if (clause, cls, site) in seen:
                 continue
             seen.add((clause, cls, site))
